@@ -203,8 +203,75 @@ func c03Compare(c *core.Ctx, root *spec.Node, refRoot *spec.Node, data any, stal
 
 func noWrap(f func()) { f() }
 
+// c03Directed: (a) z.Time.Format(layout) means that layout (and unix seconds) whatever the application has installed as its global
+// time coercer, also for the default-looking layout RFC3339; (b) a form is body plus query as net/http defines it: a list field
+// gets the body's values followed by the URL's.
+func c03Directed(c *core.Ctx) bool {
+	saved := conf.Coercers
+	conf.Coercers.Time = func(d any) (any, error) {
+		if s, ok := d.(string); ok {
+			return time.Parse("2006-01-02", s)
+		}
+		if n, ok := d.(int); ok {
+			return time.UnixMilli(int64(n)), nil
+		}
+		return nil, errors.New("not a date")
+	}
+	problem := ""
+	for _, layout := range []string{time.RFC3339, time.RFC1123, "2006-01-02 15:04"} {
+		s := z.Time(z.Time.Format(layout))
+		ts := time.Date(2024, 3, 10, 12, 30, 0, 0, time.UTC)
+		var got time.Time
+		if l := s.Parse(ts.Format(layout), &got); len(l) != 0 || !got.Equal(ts) {
+			problem = fmt.Sprintf("Time(Format(%q)).Parse(%q) with an application-wide time coercer installed: issues %v, destination %v; want %v", layout, ts.Format(layout), z.Issues.SanitizeList(l), got, ts)
+		}
+		var g2 time.Time
+		if l := s.Parse("2024-03-05", &g2); len(l) != 1 || l[0].Code != "coerce" {
+			problem = fmt.Sprintf("Time(Format(%q)).Parse(\"2024-03-05\") with an application-wide date-only coercer installed: issues %v, destination %v; want one coerce issue (the text is not in the schema's layout)", layout, z.Issues.SanitizeList(l), g2)
+		}
+		var g3 time.Time
+		if l := s.Parse(1700000000, &g3); len(l) != 0 || !g3.Equal(time.Unix(1700000000, 0)) {
+			problem = fmt.Sprintf("Time(Format(%q)).Parse(1700000000): issues %v, destination %v; want unix seconds %v", layout, z.Issues.SanitizeList(l), g3, time.Unix(1700000000, 0).UTC())
+		}
+	}
+	conf.Coercers = saved
+	c.Eval(9)
+	if problem != "" {
+		c.Violation("destination-is-not-documented-coercion|Time.Format-under-a-global-override", map[string]any{"observed": problem})
+		return false
+	}
+	type search struct {
+		Tags  []string
+		Debug string
+		Q     string
+	}
+	sch := z.Struct(z.Schema{"tags": z.Slice(z.String()), "debug": z.String(), "q": z.String()})
+	for _, rq := range []struct{ method, url, body, want string }{
+		{"POST", "/search?tags=c&debug=1", "tags=a&tags=b", "[a b c]|1|"},
+		{"POST", "/search?tags=c", "tags=a&q=x", "[a c]||x"},
+		{"PUT", "/search?debug=1&tags=z&tags=y", "q=x&tags=a", "[a z y]|1|x"},
+		{"POST", "/search?debug=1", "tags=a&tags=b", "[a b]|1|"},
+		{"DELETE", "/search?tags=c&debug=1", "tags=a", "[c]|1|"},
+	} {
+		r, _ := http.NewRequest(rq.method, rq.url, strings.NewReader(rq.body))
+		r.Header.Set("Content-Type", "application/x-www-form-urlencoded")
+		var d search
+		m := sch.Parse(zhttp.Request(r), &d)
+		c.Eval(1)
+		if got := fmt.Sprintf("%v|%s|%s", d.Tags, d.Debug, d.Q); len(m) != 0 || got != rq.want {
+			c.Violation("destination-is-not-documented-coercion|form-body-plus-query", map[string]any{"request": rq.method + " " + rq.url + " body " + rq.body, "schema": "{tags: Slice(String()), debug: String(), q: String()}", "destination(tags|debug|q)": got, "want": rq.want, "issues": fmt.Sprint(z.Issues.SanitizeMap(m))})
+			return false
+		}
+	}
+	c.Count("directed_coercion_scenarios", 1)
+	return true
+}
+
 func (c03) RunCase(c *core.Ctx) {
 	if c.Case >= len(c03Matrix) {
+		if c.Case%200 == 3 && !c03Directed(c) {
+			return
+		}
 		c03Random(c)
 		return
 	}
